@@ -95,8 +95,9 @@ def run_c07(oc, repo, seed, tier):
 # C08
 # ---------------------------------------------------------------------------------------------------------------------
 # harness/coin_rec.cpp --count 1 [--shapes4 1]: parts 0..14 single scenarios (the classic ones carry the exhaustive down-sampling
-# merges too), then the REQ merge-shape batches: 108 scenarios over 3 sketches (6 parts), thorough + 648 over 4 sketches (12 parts)
-N_PARTS = {Q: 21, T: 33}
+# merges too), 15..17 duplicate-heavy streams per family (outlier + copies, two values, runs of equal values; plain and merged),
+# then the REQ merge-shape batches: 108 scenarios over 3 sketches (6 parts), thorough + 648 over 4 sketches (12 parts)
+N_PARTS = {Q: 24, T: 36}
 
 
 def coin_nontrivial(evs):
@@ -108,7 +109,7 @@ def coin_nontrivial(evs):
 COIN_JOB = job("quantcoin",
     harness="coin_rec", inc=["common", "kll", "req", "quantiles"], spec="TraceCoin", owners=["C08"],
     files=N_PARTS,
-    args=lambda tier, seed, k, profile: ["--seed", seed // 1000, "--fmax", 12 if tier == Q else (16 if k < 15 else 14), "--part", k,
+    args=lambda tier, seed, k, profile: ["--seed", seed // 1000, "--fmax", 12 if tier == Q else (16 if k < 18 else 14), "--part", k,
                                          "--shapes4", 0 if tier == Q else 1],
     nontrivial=coin_nontrivial, heap="6g", par=6,
 )
